@@ -619,6 +619,10 @@ impl<'a> Parser<'a> {
             }
 
             patterns.push(self.parse_graph_pattern_element()?);
+            // Optional '.' after a non-triples pattern (FILTER(...) . ?s ?p ?o)
+            if self.current.kind == TokenKind::Dot {
+                self.advance();
+            }
         }
 
         self.expect(TokenKind::RightBrace)?;
@@ -697,7 +701,11 @@ impl<'a> Parser<'a> {
                 Ok(GraphPattern::SubSelect(Box::new(subquery)))
             }
             _ => {
-                // Triple patterns
+                // Triple patterns. A token that cannot start one would leave the
+                // caller's loop without progress, so it is a syntax error here.
+                if !self.is_triple_start() {
+                    return Err(self.error("expected a graph pattern"));
+                }
                 let triples = self.parse_triples_block()?;
                 Ok(GraphPattern::Basic(triples))
             }
@@ -725,6 +733,9 @@ impl<'a> Parser<'a> {
                     return Err(self.error("unexpected end of input in graph pattern"));
                 }
                 patterns.push(self.parse_graph_pattern_element()?);
+                if self.current.kind == TokenKind::Dot {
+                    self.advance();
+                }
             }
             self.expect(TokenKind::RightBrace)?;
 
